@@ -734,7 +734,13 @@ func main() {
 	fmt.Fprintf(cw, "END %d\n", casesWritten)
 	cw.Flush()
 	cf.Close()
+	if mf, err := os.Create(out + ".mut"); err == nil {
+		mf.WriteString(mutOut.String())
+		fmt.Fprintf(mf, "ENDMUT %d\n", mutTriples)
+		mf.Close()
+	}
 	sf, _ := os.Create(out + ".summary")
+	fmt.Fprintf(sf, "muttriples %d\n", mutTriples)
 	fmt.Fprintf(sf, "written %d\n", casesWritten)
 	fmt.Fprintf(sf, "cases %d\nevaluations %d\nnontrivial %d\ndistinct %d\nloadfailed %d\nreloads %d\nrebuilds %d\ngomaxprocs %d\nreps %d\nnetworkfiles %d\nhistories %d\ninterleaves %d\nboundaries %d\nsharedwrites %d\ncoldfiles %d\nextremeenums %d\n",
 		n, evals, nontrivial, len(distinct), loadFailed, reloadDone, rebuildDone, envProcs, reps, netFiles, histories, interleaves, boundaries, sharedWrites, coldFiles, extremeEnums)
